@@ -1500,6 +1500,9 @@ Proof.
   - revert b. induction a as [|x a IH]; intros [|y b]; simpl; auto. now rewrite IH.
 Qed.
 
+Lemma benign_real_default rnd s ro : pinf s = dinf -> benign rnd s (OR ro).
+Proof. intros H. unfold benign. rewrite H. apply rgap_ok_default. Qed.
+
 (* no nonzero entry of the vector underflows to 0.0 *)
 Lemma vd_ok_no_underflow rnd v :
   (forall p, In p v -> qnz (snd p) = dnz (rnd RConv (snd p))) -> vd_ok rnd false v.
